@@ -628,6 +628,22 @@ theorem wf_preserved (fx : Fixes) (s s' : HSt) (op : Op) (hop : op ≠ .flush) (
     simp only [stepOp, bind_ok, pure_ok] at hs
     obtain ⟨x, hx, hs⟩ := hs; subst hs; exact expose_good hg hx
 
+/-- Why `wf_preserved_full` keeps its restrictions: a move of the root window by the application takes it off the
+    origin, which `Good15` (C01's `RootWin`: the root window sits at 0,0 — its geometry is the terminal's) forbids.
+    So the unrestricted statement is false of every state of the source; `wf_preserved` is the whole truth for the
+    operations the property's proviso admits. -/
+theorem wf_preserved_full_counterexample (fx : Fixes) : ¬ wf_preserved_full fx := by
+  intro h
+  have hg := h { tree := newRoot 6 10 } { tree := WinTree.set (newRoot 6 10) 0 { rect := ⟨1, 0, 6, 10⟩, isRoot := true } }
+    (.move 0 ⟨1, 0, 6, 10⟩) (hinv_newRoot 6 10 (by decide) (by decide)).good rfl
+  obtain ⟨w, hw, _, _, _, htop, _⟩ := hg.rootWin.ex
+  have : w = { rect := ⟨1, 0, 6, 10⟩, isRoot := true } := by
+    have h0 : (WinTree.set (newRoot 6 10) 0 { rect := ⟨1, 0, 6, 10⟩, isRoot := true }).wins[0]? =
+        some { rect := ⟨1, 0, 6, 10⟩, isRoot := true } := rfl
+    rw [h0] at hw; exact (Option.some.inj hw).symm
+  subst this
+  revert htop; decide
+
 /-- A flush whose queue holds restacking requests only (all the public API can put there) preserves the invariant. -/
 theorem flush_preserves_wf (fx : Fixes) (t : Tree) (out : FlushOut) (hwf : wfB t = true)
     (hq : ∀ r ∈ t.root.changes, r.change.isRestack = true) (hf : flush fx t = .ok out) : wfB out.tree = true :=
